@@ -75,6 +75,12 @@ CHECKS['C13'].update(
     text=CHECKS['C13']['text'] + ' History part: 42 scenarios with sharing mutators (let substitution, variable elimination, constants built from the declaration\'s sort node, equalities with ()) x 3 strategies x -j 1/2 explored up to 1 schedule deviation under the virtual pool; at every TaskGenerator / Producer construction (230 k) all node ids of the input handed over must be pairwise distinct.',
     note='Trusted: DAG enumerator and oracle in ddv/checks/c13.py; ' + SCHED_NOTE)
 
+CHECKS['C18'] = dict(
+    level='model_checking', engine='SCHED',
+    technique='exhaustive exploration of all one-worker-pool schedules up to a deviation budget x PYTHONHASHSEED values (one interpreter each); differential oracle across all executions',
+    text='30 scenarios with -j 1 (10 inputs incl. ones where fresh variables and set-like lookups matter x 3 strategies) are run under the virtual one-worker pool for every schedule with up to 1 deviation (thorough 2: producer run-ahead, late main loop, every k) in 8 (16) separate interpreters with PYTHONHASHSEED 0..7; the sequence of accepted token sequences and the output bytes must be identical over all executions of a scenario. REAL tier: 16 runs of bin/ddsmt -j 1 with a real command that delays its k-th invocation, under two hash seeds, must give byte-identical outputs.',
+    note=SCHED_NOTE + ' Process ids are irrelevant to the observations (only file contents are compared).', design='3/C18')
+
 ENGINES = [
     dict(name='SCHED', path='ddv/sched.py', serves_properties=['C01', 'C02', 'C05', 'C13', 'C18'],
          kind_free_text='stateless deviation-bounded explorer (ddv/explore.py) over the real ddsmt main() under a virtual process pool and a modelled command'),
